@@ -675,7 +675,9 @@ impl<'a> ByteReader for SliceReader<'a> {
     }
 
     fn check_eor(&self, num_bytes: usize) -> Result<(), DeserializationError> {
-        if self.pos + num_bytes > self.source.len() {
+        // `pos` never exceeds `source.len()`, so the subtraction cannot underflow, whereas
+        // `pos + num_bytes` could overflow for large values of `num_bytes`
+        if num_bytes > self.source.len() - self.pos {
             return Err(DeserializationError::UnexpectedEOF);
         }
         Ok(())
